@@ -77,6 +77,8 @@ class LocRun:
         ck = self.ck
         impl, model, mcases = run_histories(cases, self.drv, self.mdl, jobs=jobs)
         reported = 0
+        if skip_if is None:
+            skip_if = clock_ambiguous   # a relative ttl resolved while the wall-clock second changed: the model gets one `now` per op
         for c, i, m in zip(mcases, impl, model):
             if skip_if and skip_if(c, i):
                 self.stats["skipped_ambiguous_clock"] += 1
@@ -189,6 +191,29 @@ class LocRun:
         ck.cov["rule"] = rule
         ck.cov["distribution"] = {"stats": dict(self.stats), "op_mix": dict(self.opmix), "impl_error_kinds": dict(self.errkinds)}
         ck.cov["traces_validated_against_impl"] = self.stats["histories"]
+
+
+def repeated_var_structured(pat, ev):
+    """A variable occurring more than once in `pat` and laid by `ev` over at least one structured (map/array) value:
+    the matcher's answer then depends on the order in which Go visits the pattern's keys (finding
+    C05-repeated-var-structured), so two runs of the real code are not comparable with each other or with the model."""
+    cands = {}
+    def go(p, d):
+        if isinstance(p, str) and p.startswith("?"):
+            cands.setdefault(p, []).append(d)
+        elif isinstance(p, dict) and isinstance(d, dict):
+            for k, v in p.items():
+                if k.startswith("?"):
+                    for dv in d.values():
+                        go(v, dv)
+                elif k in d:
+                    go(v, d[k])
+        elif isinstance(p, list) and isinstance(d, list):
+            for v in p:
+                for dv in d:
+                    go(v, dv)
+    go(pat, ev)
+    return any(len(v) > 1 and any(isinstance(x, (dict, list)) for x in v) for k, v in cands.items() if k != "?")
 
 
 def replay_main(ck, path):
